@@ -147,20 +147,18 @@ def analyse_mt_contract_method(f):
             return out
         out["form"] = "override"
         out["path"] = "::".join(ids)
-        a0 = A.unconv(inner["args"][0]) if inner["args"] else (False, None)
-        out["ctx_conv"] = a0[0]
-        out["ctx"] = tuple_of_params(a0[1]) if a0[1] is not None else None
-        rest = []
-        for a in inner["args"][1:]:
-            a = A.strip_expr(a)
-            if a["k"] == "try":
-                c = A.strip_expr(a["expr"])
+        args = []
+        for a in inner["args"]:
+            conv, a2 = A.unconv(a)
+            a2 = A.strip_expr(a2)
+            if a2["k"] == "try":
+                c = A.strip_expr(a2["expr"])
                 if c["k"] == "call" and A.last_seg(c["func"]) == "from_json":
-                    rest.append("from_json")
+                    args.append("from_json")
                     continue
-            ids2 = A.path_ids(a)
-            rest.append(ids2[0] if ids2 and len(ids2) == 1 else None)
-        out["rest"] = rest
+            ids2 = A.path_ids(a2)
+            args.append(ids2[0] if ids2 and len(ids2) == 1 else None)
+        out["args"] = args
         return out
     if inner["k"] == "mcall" and A.path_ids(inner["recv"]) == ["self"]:
         out["form"] = "legacy_reply"
